@@ -91,7 +91,7 @@ def run(chk):
     h = common.go_build("front")
     thorough = chk.tier == "thorough"
     chk.assume("inputs: every token string of length <= 2 over the four alphabets of WaFront.tla%s, each spaced, tight, repeated 12 times and inside a well-formed frame (function body, global initialiser, import group on one line and on several lines, module, function of a module, text section), under the file name of its language "
-               "(assembly: x64 .wa.s and loong64 .wz.s); arbitrary byte strings beyond these alphabets are not enumerated; a hang is a call that does not return within 10 s (60 s for BuildFile, which compiles the runtime library when the text parses)"
+               "(assembly: x64 .wa.s and loong64 .wz.s); arbitrary byte strings beyond these alphabets are not enumerated; a hang is a call that has used 10 s of CPU time (60 s for BuildFile, which compiles the runtime library when the text parses) or 120 s of wall time without returning"
                % (" and of length 3 over their cores" if thorough else ""))
     res = common.run_tlc("front", "WaFront", "front3.cfg" if thorough else "front2.cfg", collect_prefix='<<"T"', timeout=3000)
     if res.violated:
@@ -143,7 +143,7 @@ def run(chk):
                 outcomes[r["outcome"]] = outcomes.get(r["outcome"], 0) + 1
                 if r["outcome"] in ("panic", "hang"):
                     chk.report("C08:%s:%s:%s:%s" % (r["outcome"], r["entry"], c["lang"], norm(r["detail"])),
-                               "%s on %r (%s, %s of %s) %s%s" % (r["entry"], c["src"][:80], c["name"], c["variant"], c["toks"], "panics: " if r["outcome"] == "panic" else "does not return within 10 s", r["detail"][:200]),
+                               "%s on %r (%s, %s of %s) %s%s" % (r["entry"], c["src"][:80], c["name"], c["variant"], c["toks"], "panics: " if r["outcome"] == "panic" else "does not return (10 s of CPU time / 120 s of wall time)", r["detail"][:200]),
                                {"name": c["name"], "hex": c["src"].hex(), "toks": c["toks"], "variant": c["variant"], "result": r})
                 slowest = max(slowest, r["us"])
     chk.add("evaluations", calls)
